@@ -1021,8 +1021,10 @@ func (e *Engine) chanRecv(c *ChanObj) (Value, bool) {
 		e.Block(func() bool { return false }, "receive from nil channel")
 	}
 	if c.Timer {
-		// timers may fire at any time: a blocking receive simply proceeds
-		return e.zero(c.ElemT), true
+		// a timer delivers at an arbitrary scheduling point, at most Fires times
+		e.Block(func() bool { return c.Fires > 0 }, "timer receive (timer never fires again within the tick bound)")
+		c.Fires--
+		return e.mkTime(e.clockNow()), true
 	}
 	c.recvWaiting++
 	e.Block(func() bool { return len(c.Buf) > 0 || c.Closed }, "chan receive")
@@ -1069,7 +1071,7 @@ func (e *Engine) selectOp(fr *frame, in *ssa.Select) Value {
 				continue
 			}
 			if c.dir == types.RecvOnly {
-				if len(c.ch.Buf) > 0 || c.ch.Closed || c.ch.Timer {
+				if len(c.ch.Buf) > 0 || c.ch.Closed || (c.ch.Timer && c.ch.Fires > 0) {
 					r = append(r, i)
 				}
 			} else {
@@ -1125,6 +1127,8 @@ func (e *Engine) selectOp(fr *frame, in *ssa.Select) Value {
 		if i == chosen {
 			if c.ch.Timer {
 				recvOk = true
+				c.ch.Fires--
+				v = e.mkTime(e.clockNow())
 			} else if len(c.ch.Buf) > 0 {
 				v = c.ch.Buf[0]
 				c.ch.Buf = c.ch.Buf[1:]
